@@ -171,7 +171,7 @@ def retryable_names(ctx, f, h):
     return expand(t, f.module)
 
 
-@rule('C03.a', ['C03', 'C07', 'C05', 'C08'], floor=6)
+@rule('C03.a', ['C03', 'C07', 'C05', 'C08', 'C17'], floor=6)
 def single_funnel(ctx):
     """Task.__call__ wraps waiting, kwarg gathering and _execute_main in a try whose
     handler catches Exception (or wider) and records it; no Task subclass overrides
